@@ -43,6 +43,10 @@ pub enum Lat {
     /// task's whole cooperative budget (a future that did a lot of ready work in that poll): the
     /// next tokio operation of whoever awaits it (a lock, a channel, a semaphore) yields once
     MsDrain(u64),
+    /// the work is done by a task of its own, which has the result after this many ms whether or
+    /// not anybody polls the call future meanwhile (it logs the note "available" then); the call
+    /// future completes at its first poll after that
+    Spawned(u64),
 }
 
 #[derive(Clone, Copy, Debug, PartialEq, Eq, Hash, Serialize, Deserialize)]
@@ -219,6 +223,18 @@ pub fn run_step(
                     Poll::Ready(())
                 })
                 .await;
+            }
+            Lat::Spawned(ms) => {
+                let (tx, rx) = tokio::sync::oneshot::channel::<()>();
+                let lg = shared.log.clone();
+                tokio::spawn(async move {
+                    if ms > 0 {
+                        tokio::time::sleep(Duration::from_millis(ms)).await;
+                    }
+                    lg.note("available", serial as i64, 0);
+                    let _ = tx.send(());
+                });
+                let _ = rx.await;
             }
             Lat::Busy(ms) => {
                 let until = std::time::Instant::now() + Duration::from_millis(ms);
